@@ -168,7 +168,7 @@ prop('C11',
 
 prop('C19',
      modules=['WitnessVerif.Props.C19'],
-     scenarios=lambda tier: [sc('bastion', n=30 if tier == 'quick' else 300)] * (3 if tier == 'quick' else 8) + [sc('parsebody'), sc('prooffmt'), sc('hostile'), sc('dist', n=150 if tier == 'quick' else 3000), sc('bastione2e'), sc('omni')],
+     scenarios=lambda tier: [sc('bastion', n=30 if tier == 'quick' else 300)] * (3 if tier == 'quick' else 8) + [sc('parsebody'), sc('prooffmt'), sc('hostile'), sc('dist', n=150 if tier == 'quick' else 3000), sc('bastione2e'), sc('omni'), sc('bastionproc')],
      diverge={'H': {'status'}, 'PB': None, 'PFU': None},
      nontrivial_line=lambda k, line: k in ('H', 'PB', 'PFU', 'HF') and ('class=mutated' in line or 'malformed' in line or k in ('PFU', 'HF')),
      rule='arbitrary and mutated bytes against the add-checkpoint handler (panics recovered and reported), parseBody and Proof.Unmarshal; status must be in {200,400,403,404,409,422,429,500}; all five feeder types (one cycle, under recover and a deadline) against a log server answering with log-signed checkpoints of sizes {0, 6, 2^62, 2^62+1, 2^63-1, 2^63, 2^64-1} x root lengths {0, 5, 32, 33} x tile answers {404, garbage}, truncated / empty / random / 3 MiB bodies, statuses 500/404, empty/huge/garbage tiles; the distributor against connection resets, redirects and error statuses',
